@@ -21,10 +21,12 @@ pub struct GenCfg {
     pub max_assertions: usize,
     /// force one sequence assertion of >= 64 values whose first step is spread over the whole stride
     pub long_sequence: bool,
+    /// at least one periodic column with a long cycle (n/4 .. n) that a constraint depends on
+    pub force_periodic: bool,
 }
 impl GenCfg {
     pub fn small() -> Self {
-        GenCfg { min_log_n: 3, max_log_n: 8, max_width: 8, min_width: 1, allow_aux: true, max_degree: 5, wide: false, max_assertions: 8, long_sequence: false }
+        GenCfg { min_log_n: 3, max_log_n: 8, max_width: 8, min_width: 1, allow_aux: true, max_degree: 5, wide: false, max_assertions: 8, long_sequence: false, force_periodic: false }
     }
 }
 
@@ -80,10 +82,10 @@ pub fn gen_instance<S: FSpec>(s: &mut Src, cfg: &GenCfg, rec: &mut Rec) -> Insta
         }
     };
     // periodic columns
-    let nper = if s.chance(1, 2) { s.range(1, 3) as usize } else { 0 };
+    let nper = if cfg.force_periodic { s.range(1, 3) as usize } else if s.chance(1, 2) { s.range(1, 3) as usize } else { 0 };
     let periodic: Vec<Vec<u128>> = (0..nper)
         .map(|_| {
-            let c = 1usize << s.range(1, log_n as u64);
+            let c = if cfg.force_periodic && s.chance(3, 4) { 1usize << s.range(log_n.saturating_sub(2).max(1) as u64, log_n as u64) } else { 1usize << s.range(1, log_n as u64) };
             let mut mix = Mix(s.u64());
             (0..c).map(|i| if i < 2 { gen_int::<S>(s) } else { mix.int::<S>() }).collect()
         })
@@ -94,7 +96,7 @@ pub fn gen_instance<S: FSpec>(s: &mut Src, cfg: &GenCfg, rec: &mut Rec) -> Insta
     let mut keep_tail = vec![];
     let dense = main_width > 16;
     for j in 0..main_width {
-        let shape = if dense { s.below(2) } else { s.below(6) };
+        let shape = if cfg.force_periodic && j == 0 { 5 } else if dense { s.below(2) } else { s.below(6) };
         match shape {
             0 => {
                 constraints.push(MainConstraint { f: vec![Term { coef: 1, vars: vec![(j, 1)] }], g: vec![], periodic: None });
@@ -113,7 +115,7 @@ pub fn gen_instance<S: FSpec>(s: &mut Src, cfg: &GenCfg, rec: &mut Rec) -> Insta
                 if nper == 0 {
                     constraints.push(MainConstraint { f: gen_poly_terms::<S>(s, main_width, 1), g: vec![], periodic: None });
                 } else {
-                    let dg = s.range(0, (cfg.max_degree - 1) as u64) as usize;
+                    let dg = s.range(if cfg.force_periodic { 1 } else { 0 }, (cfg.max_degree - 1) as u64) as usize;
                     let df = s.below(dg as u64 + 1) as usize;
                     let k = s.below(nper as u64) as usize;
                     constraints.push(MainConstraint { f: gen_poly_terms::<S>(s, main_width, df), g: gen_poly_terms::<S>(s, main_width, dg), periodic: Some(k) });
